@@ -99,14 +99,14 @@ func c03Judge(h http.Header, got int) (sig, msg string) {
 
 func init() {
 	Register("C03", func(c *Ctx) {
-		c.Out.Rule = "small-scope exhaustive enumeration, no randomness: (1) every Cache-Control built from <=2 (quick) / <=3 (thorough) ordered distinct directives of {max-age=N, s-maxage=N, no-cache, no-store, private (bare and with an argument: private=\"set-cookie\", no-cache=\"set-cookie\", no-cache=x), public, must-revalidate, no-transform, immutable, stale-while-revalidate} x casing {lower, UPPER, Mixed} x separators {',', ', ', ' , '} x {one header line, one line per directive} x Set-Cookie {absent, value, two values, empty-then-value} x Age {absent,0,1,10,11,-5,abc,1e20}, N in {0,1,10,2^31,2^63-1,2^63,1e20}, through pike's lifetime function against the reference classifier; (2) methods x status codes x representative header sets through the full handler chain, a second identical request deciding 'stored', with label truth and exactly-once forwarding; non-trivial = distinct header sets"
+		c.Out.Rule = "small-scope exhaustive enumeration, no randomness: (1) every Cache-Control built from <=2 (quick) / <=4 (thorough) ordered distinct directives of {max-age=N, s-maxage=N, no-cache, no-store, private (bare and with an argument: private=\"set-cookie\", no-cache=\"set-cookie\", no-cache=x), public, must-revalidate, no-transform, immutable, stale-while-revalidate} x casing {lower, UPPER, Mixed} x separators {',', ', ', ' , '} x {one header line, one line per directive} x Set-Cookie {absent, value, two values, empty-then-value} x Age {absent,0,1,10,11,-5,abc,1e20}, N in {0,1,10,2^31,2^63-1,2^63,1e20}, through pike's lifetime function against the reference classifier; (2) methods x status codes x representative header sets through the full handler chain, a second identical request deciding 'stored', with label truth and exactly-once forwarding; non-trivial = distinct header sets"
 		c.Out.Assume = []string{"quoted directive arguments contain no comma", "where a number is malformed or overflows the oracle only checks stored => not forbidden"}
 		st := c.Stat("lifetime-function", "enumeration")
 		nums := c03Nums
 		toks := c03Tokens(nums)
 		maxDir := 2
 		if c.Thorough() {
-			maxDir = 3
+			maxDir = 4
 		}
 		st.Bounds = fmt.Sprintf("<=%d directives from %d tokens, all orders, 3 casings, 3 separators, 2 line layouts, 4 Set-Cookie, 8 Age", maxDir, len(toks))
 		cookies := [][]string{nil, {"a=1"}, {"a=1", "b=2"}, {"", "b=2"}}
